@@ -2,48 +2,87 @@
 (***************************************************************************)
 (* Breaker clause of property C12: "connection-level failures trip the     *)
 (* per-address breaker whereas redis.Nil and context cancellation never    *)
-(* do".                                                                    *)
+(* do".  The clause ranges over every entry point of the wrapper that goes *)
+(* through the breaker: `Methods` is the list that the check derives from  *)
+(* the source (every method whose body, or whose delegate's body, calls    *)
+(* a method of r.brk), so an entry point with another breaker call shape   *)
+(* cannot be missed.                                                       *)
 (*                                                                         *)
-(* A history is a sequence of bursts of commands against one address:      *)
-(*   ok      Burst commands that succeed                                   *)
-(*   nil     Burst commands answered with redis.Nil (HGet of a missing key)*)
-(*   cancel  Burst commands issued with an already cancelled context       *)
-(*   down    Outage commands while the server is closed (then restarted)   *)
+(* A history is a sequence of bursts of calls against one address; a burst *)
+(* is made through one entry point m in one manner:                        *)
+(*   ok      calls that succeed                                            *)
+(*   nil     calls answered with redis.Nil (only entry points that can     *)
+(*           return it: NilCapable)                                        *)
+(*   cancel  calls (Ctx form) with an already cancelled context            *)
+(*   down    Outage calls while the server is closed (then restarted)      *)
 (* The driver forces the breaker's coin to "reject whenever the breaker    *)
 (* asks" and freezes the breaker's clock, so the real breaker rejects as   *)
 (* soon as its drop ratio is positive.  What the statement fixes:          *)
-(*   never   as long as no connection-level failure has happened on this   *)
-(*           address no command may be rejected, whatever number of Nil    *)
-(*           replies and cancellations came before;                        *)
-(*   must    after an outage long enough to outweigh the earlier successes *)
-(*           (Outage > 5 + 0.5 * Burst * MaxLen: the C01 formula with      *)
-(*           protection 5, k = 1.5) every command is rejected;             *)
+(*   never-reject  as long as no connection-level failure has happened on  *)
+(*           this address no call may be rejected, whatever number of Nil  *)
+(*           replies and cancellations came before, through whichever      *)
+(*           entry point;                                                  *)
+(*   must-reject   after an outage long enough to outweigh the earlier     *)
+(*           successes (Outage > 5 + 0.5 * accepted calls: the C01 formula *)
+(*           with protection 5, k = 1.5) every call is rejected;           *)
 (*   other   a second address is never affected.                           *)
+(* Two kinds of histories: (A) all sequences of MaxLen bursts of ordinary  *)
+(* commands (Get / HGet); (B) for every entry point and every manner one   *)
+(* burst through it followed by a probe burst of ordinary commands.        *)
 (***************************************************************************)
-EXTENDS Integers, Sequences, TLC, Json
+EXTENDS Integers, Sequences, FiniteSets, TLC, Json
 
-CONSTANT MaxLen
+CONSTANTS MaxLen,
+          Methods       \* breaker-guarded entry points (method names without the Ctx suffix)
 
-VARIABLES hist, bad
+VARIABLES hist, bad, closed
 
 Burst == 8
 Outage == 5 + (Burst * MaxLen) \div 2 + 3
 
 Kinds == {"ok", "nil", "cancel", "down"}
 
-Init == hist = <<>> /\ bad = FALSE
+\* entry points that can answer redis.Nil (the wrapper hands it on, or - Pipelined - go-redis reports
+\* it as the pipeline's error)
+NilCapable == {"HGet", "LPop", "RPop", "LIndex", "ZScore", "ZRank", "ZRevRank", "SPop", "Eval", "EvalSha", "Pipelined"}
+\* Ping reports a bool and ignores errors by design: an outage seen only through it need not trip
+Swallowing == {"Ping"}
 
-Ev(k) ==
-  /\ Len(hist) < MaxLen
-  /\ hist' = Append(hist, [kind |-> k,
-                           n |-> IF k = "down" THEN Outage ELSE Burst,
-                           \* verdict on the commands of this burst that reach the breaker
-                           expect |-> IF bad THEN "must-reject" ELSE IF k = "down" THEN "any" ELSE "never-reject",
-                           other |-> "never-reject"])
+Ev(k, m) ==
+  [kind |-> k, m |-> m,
+   n |-> IF k = "down" THEN Outage ELSE Burst,
+   \* verdict on the calls of this burst that reach the breaker
+   expect |-> IF bad THEN "must-reject" ELSE IF k = "down" THEN "any" ELSE "never-reject",
+   other |-> "never-reject"]
+
+Init == hist = <<>> /\ bad = FALSE /\ closed = FALSE
+
+\* (A) ordinary commands
+Plain(k) ==
+  /\ ~closed /\ Len(hist) < MaxLen
+  /\ (hist # <<>> => hist[1].m = "")
+  /\ hist' = Append(hist, Ev(k, ""))
   /\ bad' = (bad \/ k = "down")
+  /\ closed' = (Len(hist) + 1 = MaxLen)
 
-Next == \E k \in Kinds : Ev(k)
-Spec == Init /\ [][Next]_<<hist, bad>>
+\* (B) one burst through entry point m, then the probe
+Entry(m, k) ==
+  /\ hist = <<>>
+  /\ (k = "nil" => m \in NilCapable)
+  /\ hist' = <<Ev(k, m)>>
+  /\ bad' = (k = "down" /\ m \notin Swallowing)
+  /\ closed' = FALSE
 
-Emit == (Len(hist) = MaxLen) => PrintT(ToJson(hist))
+Probe ==
+  /\ Len(hist) = 1 /\ hist[1].m # "" /\ ~closed
+  /\ hist' = Append(hist, [Ev("ok", "") EXCEPT !.expect =
+                              IF bad THEN "must-reject"
+                              ELSE IF hist[1].kind = "down" THEN "any" ELSE "never-reject"])
+  /\ closed' = TRUE
+  /\ UNCHANGED bad
+
+Next == (\E k \in Kinds : Plain(k)) \/ (\E m \in Methods, k \in Kinds \ {"ok"} : Entry(m, k)) \/ Probe
+Spec == Init /\ [][Next]_<<hist, bad, closed>>
+
+Emit == closed => PrintT(ToJson(hist))
 =============================================================================
